@@ -118,7 +118,7 @@ def make_case(index, rng, tier):
                 "unix": rng.randrange(3) == 0, "pidfile": rng.randrange(4) != 0,
                 "buggify": {"pyticks": rng.randrange(3) == 0, "fork_child_first": rng.randrange(2) == 0, "spurious_select": rng.randrange(3) == 0,
                             "random_spawn_delay": rng.randrange(2) == 0},
-                "extra": rng.choice([None, None, "second-signal", "killw", "ttou-before", "hup-before"])}
+                "extra": rng.choice([None, None, "second-signal", "killw", "ttou-before", "hup-before", "rm-socket"])}
     kind = rng.choice(["sync", "gthread", "gevent", "eventlet"])
     clients = []
     for i in range(rng.randrange(1, 4)):
@@ -405,6 +405,14 @@ def run_master(case, choices):
                 sim.fault("master_signal:" + case["extra"])
                 sim.kill(m.pid, int(signal.SIGTTOU if case["extra"] == "ttou-before" else signal.SIGHUP))
         sim.after(max(0.0, case["sig_at"] - 0.4), retire)
+    elif case.get("extra") == "rm-socket" and case["unix"]:
+        # the environment removed the socket file before the server is stopped (a /tmp cleaner, an operator): nothing of the server's own
+        # may be left behind all the same, and the exit status stays 0
+        def rm():
+            if "/run/g.sock" in sim.fs:
+                sim.fault("unix_socket_file_removed_by_environment")
+                del sim.fs["/run/g.sock"]
+        sim.after(max(0.0, case["sig_at"] - 0.2), rm)
     elif case.get("extra") == "killw":
         def kw():
             lw = sorted(master.live_children(sim, m.pid), key=lambda p: p.pid)
